@@ -270,6 +270,18 @@ func (g *progGen) forBlock(depth int) {
 		n := g.name("n")
 		g.pre = append(g.pre, fmt.Sprintf("%s equ %d", n, count))
 		g.nEqu++
+		// sometimes through an alias chain (n2 equ n1): resolution order of
+		// the symbol table must not matter
+		for k := g.tp.Draw("for.alias", 3); k > 0; k-- {
+			a := g.name("n")
+			if g.tp.Draw("for.alias.pos", 2) == 0 {
+				g.pre = append(g.pre, fmt.Sprintf("%s equ %s", a, n))
+			} else {
+				g.pre = append([]string{fmt.Sprintf("%s equ %s", a, n)}, g.pre...)
+			}
+			g.nEqu++
+			n = a
+		}
 		countStr = n
 	} else if g.tp.Draw("for.exprcount", 6) == 0 {
 		countStr = fmt.Sprintf("%d+%d", count/2, count-count/2)
